@@ -195,7 +195,7 @@ PROPS = {
     "C14": dict(
         lean_props="Receptor.Props.C14",
         engines=[dict(engine="status", pkg="pkg/workceptor", test="TestVerifStatus", n_quick=40, n_thorough=400)],
-        corr_ops={"status": ["run"]},
+        corr_ops={"status": ["run", "scanlock"]},
         facts=["st_lock", "st_lock_name", "st_unlock", "st_save", "st_load", "st_update", "st_basic", "st_basic_cb", "st_stdout", "st_bwu", "st_io", "st_removals"],
         trusted=["cmd/go/internal/lockedfile (flock) gives an exclusive lock across goroutines and processes and releases it on Close: "
                  "modelled as the `owner` field; exercised for real by goroutines and re-executed processes, not proved",
